@@ -94,4 +94,12 @@ def rule_leading_blanks_survive(ctx):
     decide_kinds(ctx, "O14.6", "leading blanks survive skip initial space", "cutplace.rowio.DelimitedRowWriter.__init__", cell, min_cells=4)
 
 
-RULES = [rule_writer, rule_validation_is_the_readers, rule_write_rows_agrees_with_write_row, rule_fixed_files_keep_their_line_ends, rule_leading_blanks_survive, rule_module_state]
+def rule_written_values_are_quoted_for_the_reader(ctx):
+    """O12.1 (shared with C12): "reading the produced output back returns the written values" needs the csv writer and the
+    csv reader to be configured alike - including which characters make the writer quote an item."""
+    from .c12 import rule_dialect
+
+    rule_dialect(ctx)
+
+
+RULES = [rule_written_values_are_quoted_for_the_reader, rule_writer, rule_validation_is_the_readers, rule_write_rows_agrees_with_write_row, rule_fixed_files_keep_their_line_ends, rule_leading_blanks_survive, rule_module_state]
